@@ -1,5 +1,5 @@
 // C08 driver: histories over a pool of BDD-encoded automata (one encoding per case).
-// case:   (bu|td) <nsteps> { ; <op> }*      ops:
+// case:   (bu|td) <nsteps> [SALT n] [MAPS] { ; <op> }*      (MAPS: Union / Intersection called with the optional maps)   ops:
 //   N k            k := empty automaton            L k <T>       k := fresh automaton loaded from Timbuk text
 //   LI k <T>       load into the existing (empty) automaton k      C k j   k := copy of j
 //   LA k <T>       load further rules / finals into the existing automaton k (adds to what is there; same state names)
@@ -25,6 +25,8 @@ template <class Aut> std::string run(Toks& t) {
 	U n = t.num();
 	g_salt = 0;
 	if (t.v[t.i] == "SALT") { t.word(); g_salt = t.num(); }
+	bool maps = false;      // MAPS: Union / Intersection are called with the optional translation / product maps
+	if (t.v[t.i] == "MAPS") { t.word(); maps = true; }
 	std::ostringstream os; os << "R";
 	for (U s = 0; s < n; ++s) {
 		t.expect(";");
@@ -54,9 +56,9 @@ template <class Aut> std::string run(Toks& t) {
 			pool.at(k)->SetStateFinal(q); fq = (long)q;
 		}
 		else if (op == "D") { U k = t.num(); pool.erase(k); }
-		else if (op == "U") { U k = t.num(); U i = t.num(); U j = t.num(); Aut r = Aut::Union(*pool.at(i), *pool.at(j)); pool[k].reset(new Aut(r)); }
+		else if (op == "U") { U k = t.num(); U i = t.num(); U j = t.num(); VATA::AutBase::StateToStateMap ml, mr; Aut r = maps ? Aut::Union(*pool.at(i), *pool.at(j), &ml, &mr) : Aut::Union(*pool.at(i), *pool.at(j)); pool[k].reset(new Aut(r)); }
 		else if (op == "UD") { U k = t.num(); U i = t.num(); U j = t.num(); Aut r = Aut::UnionDisjointStates(*pool.at(i), *pool.at(j)); pool[k].reset(new Aut(r)); }
-		else if (op == "X") { U k = t.num(); U i = t.num(); U j = t.num(); Aut r = Aut::Intersection(*pool.at(i), *pool.at(j)); pool[k].reset(new Aut(r)); }
+		else if (op == "X") { U k = t.num(); U i = t.num(); U j = t.num(); VATA::AutBase::ProductTranslMap pm; Aut r = maps ? Aut::Intersection(*pool.at(i), *pool.at(j), &pm) : Aut::Intersection(*pool.at(i), *pool.at(j)); pool[k].reset(new Aut(r)); }
 		else if (op == "UR") { U k = t.num(); U i = t.num(); Aut r = pool.at(i)->RemoveUnreachableStates(); pool[k].reset(new Aut(r)); }
 		else if (op == "UL") { U k = t.num(); U i = t.num(); Aut r = pool.at(i)->RemoveUselessStates(); pool[k].reset(new Aut(r)); }
 		else throw std::runtime_error("driver: unknown op " + op);
